@@ -162,4 +162,6 @@ def run(ctx):
     profile.check(ctx, rep, 'R07.P', ['clog_start', 'slog_start', 'clog_finish', 'slog_finish'])
     from rules import witness
     witness.check(ctx, rep, 'R07.W', ['WMoveServer', 'WMoveClient'])
+    from rules import lclone
+    lclone.check(ctx, rep, 'R07.C')
     return rep
